@@ -36,7 +36,7 @@ LC, 4 × 17), written out here independently of `/repo`: cell (row, col) — row
 table — is transmitted at `col · R + (row − 1)`; the row code occupies the last five columns of every row but the
 last (the column parity row); the 5-bit checksum sits in column 10 of rows 3..7, the CRC-8 in columns 4..11 of
 row 3.  Self-consistency (everything else in this file) holds for any consistent arrangement; that the
-arrangement is the standard's is this fact.  (`VBPTC(32,11)` has no independent transcription here.) -/
+arrangement is the standard's is this fact.  (`VBPTC(32,11)`: `tables_32_reference` below.) -/
 theorem tables_etsi :
     vbptc12873.ii = (List.range 128).map (fun k =>
       ⟨k, (k % 16) * 8 + k / 16, k / 16 + 1, k % 16,
@@ -46,6 +46,18 @@ theorem tables_etsi :
       ⟨k, (k % 17) * 4 + k / 17, k / 17 + 1, k % 17,
        decide (k / 17 + 1 ≤ 3) && decide (12 ≤ k % 17),
        decide (k / 17 + 1 = 3) && decide (4 ≤ k % 17) && decide (k % 17 ≤ 11)⟩) := by
+  decide +kernel
+
+/-- the single-burst arrangement VBPTC(32,11) (ETSI TS 102 361-1 B.2.2, single burst variable length BPTC: 2 × 16, row 1 =
+11 information bits + Hamming(16,11,4) parity in the last five columns, row 2 = the column parity row), written out as a
+closed formula independently of `/repo`: cell (row, col) has the column-wise index `2·col + (row − 1)` and is transmitted at
+that index `× 17 mod 32` — so row 1 occupies the even positions in order and the parity bit of column `c` follows the
+information bit of column `c + 8 (mod 16)`.  With `tables_etsi` all three arrangements now have a transcription
+that does not come from the tree. -/
+theorem tables_32_reference :
+    vbptc3211.ii = (List.range 32).map (fun k =>
+      ⟨k, ((2 * (k % 16) + k / 16) * 17) % 32, k / 16 + 1, k % 16,
+       decide (k / 16 = 0) && decide (11 ≤ k % 16), decide (k / 16 = 1)⟩) := by
   decide +kernel
 
 /-- no loop of the three classes indexes outside its arrays (no `IndexError`, no negative row) -/
